@@ -47,8 +47,7 @@ def handleTokens (inp : List String) (obs : String) : Verdict :=
             match outToks.mapM Biogo.Drive.C11.parseOut with
             | none => fail "a-call-returned-an-error-or-panicked" tags
             | some outs =>
-              if outs.length ≠ w.ops.length then fail "history-did-not-complete" tags else
-              match Biogo.Drive.C11.checkHistory w.ac h 1 outs with
+              match Biogo.Drive.C11.historyStatement w.ac h w.ops outs with
               | some why => fail why tags
               | none => if m == impl then ok tags else diff m tags
           | _ => fail "unparsable-observation" tags
